@@ -98,6 +98,8 @@ func cmdDNSPool(args []string) error {
 	// $denyallow never applies to an IP-address hostname - and a name made of hexadecimal digits is not an address
 	net(func(r *aRule) { r.Pat = bytesToInts("||cafe.be^"); r.Denyallow = hostsOf([]string{other}) })
 	net(func(r *aRule) { r.Pat = bytesToInts("||1.2.3.4^"); r.Denyallow = hostsOf([]string{other}) })
+	// a line that is nothing but an address is no hosts entry (there is no name): it is a rule with that text as its pattern
+	net(func(r *aRule) { r.Pat = bytesToInts("1.2.3.4") })
 	// browser-only rules: they would match if they were loaded
 	net(func(r *aRule) { r.Mcase = "on" })
 	net(func(r *aRule) { r.Third = "off" })
@@ -127,6 +129,12 @@ func cmdDNSPool(args []string) error {
 			}
 			if err = checkRendered(e.Rule, r); err != nil {
 				return rejectedErr("the rule %q is parsed differently from what the specification says: %v", e.Text, err)
+			}
+			// ... and a list reads the line as that rule too
+			if lr, lerr := rules.NewRule(e.Text, 1); lerr != nil || lr == nil || lr.Text() != e.Text {
+				parseMismatch = append(parseMismatch, fmt.Sprintf("line %q of a list is not read as the rule it is (%T, %v)", e.Text, lr, lerr))
+			} else if _, isNet := lr.(*rules.NetworkRule); !isNet {
+				parseMismatch = append(parseMismatch, fmt.Sprintf("line %q of a list is read as %T, not as a network rule", e.Text, lr))
 			}
 		} else {
 			r, err := rules.NewRule(e.Text, 1)
